@@ -21,6 +21,8 @@
 #include <sstream>
 #include <string>
 #include <vector>
+#include <fcntl.h>
+#include <sys/wait.h>
 #include <unistd.h>
 
 namespace vf {
@@ -84,6 +86,7 @@ inline Args parse_args(int argc, char** argv) {
 static char g_case[8192] = "(none)";
 static volatile int g_case_timeout = 20;  // seconds per case
 static bool g_in_case = false;
+static volatile bool g_probe_child = false;  // set in a forked probe: crashes are the parent's observation, stay silent
 
 inline void emit_line(const std::string& line) {
   std::string l = line;
@@ -103,6 +106,7 @@ inline void set_case(const std::string& c) {
 inline void end_case() { g_in_case = false; alarm(0); }
 
 inline void crash_out(const char* kind) {
+  if (g_probe_child) return;
   // async-signal-safe-ish: only write(2) on preformatted buffers
   static char buf[9000];
   size_t p = 0;
@@ -130,7 +134,7 @@ inline void on_signal(int sig) {
     case SIGALRM: k = "TIMEOUT"; break;
   }
   crash_out(k);
-  _exit(sig == SIGALRM ? 4 : 3);
+  _exit(g_probe_child ? 77 : (sig == SIGALRM ? 4 : 3));
 }
 
 inline void on_terminate() {
@@ -213,6 +217,44 @@ inline void finish() {
     if (r <= 0) break;
     off += (size_t)r;
   }
+}
+
+// Runs f(i) for i = from..to-1 in forked children that stay silent on crashes. result[i-from] is the value f returned
+// (any char other than '!'), or '!' if the child died while executing f(i) (sanitizer report, signal, timeout, exit).
+// One child handles as many consecutive indices as it survives, so a run without deaths costs a single fork.
+template <class Fn>
+inline std::string probe_range(size_t from, size_t to, Fn&& f, int timeout_s = 10) {
+  std::string result;
+  size_t next = from;
+  while (next < to) {
+    fflush(stdout);
+    int fds[2];
+    if (pipe(fds) != 0) return result;
+    pid_t pid = fork();
+    if (pid == 0) {
+      g_probe_child = true;
+      close(fds[0]);
+      int fd = open("/dev/null", O_WRONLY);
+      if (fd >= 0) dup2(fd, 2);
+      for (size_t i = next; i < to; ++i) {
+        alarm(timeout_s);
+        char c = '?';
+        try { c = f(i); } catch (...) { c = 'E'; }
+        if (write(fds[1], &c, 1) != 1) _exit(78);
+      }
+      _exit(0);
+    }
+    close(fds[1]);
+    char c;
+    size_t got = 0;
+    while (read(fds[0], &c, 1) == 1) { result += c; ++got; }
+    close(fds[0]);
+    int st = 0;
+    waitpid(pid, &st, 0);
+    next += got;
+    if (next < to) { result += '!'; ++next; }  // the child died inside f(next)
+  }
+  return result;
 }
 
 // small helpers ---------------------------------------------------------------------------------------------------
